@@ -123,8 +123,11 @@ impl<'xml> Deserializer<'xml> {
                     DeEvent::Start(x)
                 }
 
+                // a CDATA section is character data
+                Event::CData(x) => DeEvent::Text(x.escape().map_err(|e| invalid_xml(e.into()))?),
+
                 // ignore the others
-                Event::Comment(_) | Event::CData(_) | Event::Decl(_) | Event::PI(_) | Event::DocType(_) => continue,
+                Event::Comment(_) | Event::Decl(_) | Event::PI(_) | Event::DocType(_) => continue,
             };
             break Ok(de);
         }
@@ -269,8 +272,16 @@ impl<'xml> Deserializer<'xml> {
             DeEvent::End(_) => {
                 f(BytesText::from_escaped("")) //
             }
-            DeEvent::Text(x) => {
+            DeEvent::Text(mut x) => {
                 self.consume_peeked();
+                // the text may arrive in pieces: comments and CDATA sections interrupt it
+                while let DeEvent::Text(more) = self.peek_event()? {
+                    self.consume_peeked();
+                    let mut buf = x.into_inner().into_owned();
+                    buf.extend_from_slice(&more);
+                    let s = String::from_utf8(buf).map_err(|_| DeError::InvalidContent)?;
+                    x = BytesText::from_escaped(s);
+                }
                 f(x)
             }
             DeEvent::Eof => {
